@@ -408,6 +408,10 @@ size_t varintAdaptiveEncodeWith(uint8_t *dst, const uint64_t *values,
     }
 
     /* Fill metadata if requested */
+    if (encodedSize == 0 && count > 0) {
+        return 0; /* the selected encoder failed (e.g. out of memory) */
+    }
+
     if (meta) {
         meta->encodingType = encodingType;
         meta->originalCount = count;
